@@ -962,6 +962,8 @@ pub struct JunosState {
 
 pub struct FakeJunos {
     pub addr: SocketAddr,
+    /// the same router without TLS: what the `cli xml-mode netconf` child of the agent's local target is bridged to
+    pub plain_addr: SocketAddr,
     pub state: Arc<Mutex<JunosState>>,
 }
 
@@ -1153,6 +1155,7 @@ pub async fn start_junos(
     let addr = listener.local_addr().unwrap();
     let state = Arc::new(Mutex::new(JunosState { running, eph, log: Vec::new(), sessions: 0 }));
     let st = state.clone();
+    let (faults2, case2) = (faults.clone(), case.clone());
     drop(tokio::spawn(async move {
         loop {
             let Ok((tcp, _)) = listener.accept().await else { break };
@@ -1164,11 +1167,24 @@ pub async fn start_junos(
             }));
         }
     }));
-    FakeJunos { addr, state }
+    let plain = TcpListener::bind(("127.0.0.1", 0)).await.unwrap();
+    let plain_addr = plain.local_addr().unwrap();
+    let (st, faults, case) = (state.clone(), faults2, case2);
+    drop(tokio::spawn(async move {
+        loop {
+            let Ok((tcp, _)) = plain.accept().await else { break };
+            let _ = tcp.set_nodelay(true);
+            let (st, faults, case) = (st.clone(), faults.clone(), case.clone());
+            drop(tokio::spawn(async move {
+                serve_session(tcp, st, faults, case, style).await;
+            }));
+        }
+    }));
+    FakeJunos { addr, plain_addr, state }
 }
 
-async fn serve_session(
-    mut stream: tokio_rustls::server::TlsStream<tokio::net::TcpStream>,
+async fn serve_session<S: tokio::io::AsyncRead + tokio::io::AsyncWrite + Unpin>(
+    mut stream: S,
     st: Arc<Mutex<JunosState>>,
     faults: Vec<Fault>,
     case: String,
